@@ -69,6 +69,16 @@ m('c17_s12_stop_flag_relaxed_reset','C17',D,
 '''        self.is_done.store(false, Ordering::SeqCst);
         let ast = self''','''        let ast = self''','run() forgets to clear the stop flag for the new run')
 
+m('c17_s13_grammar_reload_ignored_while_session_exists','C17',D,
+'''        self.grammar = Some(DebuggerContext::parse_grammar(grammar_name, grammar)?);
+
+        Ok(())''','''        let parsed = DebuggerContext::parse_grammar(grammar_name, grammar)?;
+        if self.handle.is_none() {
+            self.grammar = Some(parsed);
+        }
+
+        Ok(())''','load_grammar_direct is ignored once a session has been started')
+
 P='pest/src/parser_state.rs'
 m('c12_s01_revert_ok_path','C12',P,
 '''        Ok(state) if state.call_tracker.refused => Err(state),''','''        Ok(state) if false && state.call_tracker.refused => Err(state),''','refusal absorbed on the Ok path again')
